@@ -175,7 +175,7 @@ def explore(PART, a, thr=None, rows=None, via_rebalance=False, batch_size=None):
     if thr is not None:
         t = pipe.Thr(thr, "t")
     b = pipe.balancer(threshold=t, batch_size=batch_size)
-    rows = rows if rows is not None else [{"reaction": r} for r in PART["shape"]]
+    rows = rows if rows is not None else input_rows(PART)
     stats: Dict[str, Any] = {}
     if via_rebalance:
         out = b.rebalance(rows, output_dict=True, stats=stats, batch_size=batch_size)
@@ -285,3 +285,45 @@ def witness_findings(pid):
     from vf import witness
 
     return witness.run_for(pid)
+
+
+# ---- two-row partitions: row 1 symbolic (j>>q), row 2 (w>>x) a fixed representative of each outcome class
+ROW2 = {
+    "input-balanced": {"wC": 1, "wH": 2, "wO": 0, "wq": 0, "xC": 1, "xH": 2, "xO": 0, "xq": 0, "m2": 0},
+    "rule-based": {"wC": 1, "wH": 2, "wO": 0, "wq": 0, "xC": 1, "xH": 0, "xO": 0, "xq": 0, "m2": 0},
+    "mcs-ok": {"wC": 2, "wH": 2, "wO": 0, "wq": 0, "xC": 1, "xH": 2, "xO": 0, "xq": 0, "m2": 4, "wwC": 1, "wwH": 0, "wwO": 0, "wwq": 0},
+    "mcs-fail": {"wC": 2, "wH": 2, "wO": 0, "wq": 0, "xC": 1, "xH": 2, "xO": 0, "xq": 0, "m2": 0},
+    "carbon-deficit": {"wC": 1, "wH": 0, "wO": 0, "wq": 0, "xC": 2, "xH": 0, "xO": 0, "xq": 0, "m2": 4, "wwC": 1, "wwH": 0, "wwO": 0, "wwq": 0},
+}
+
+
+def partitions2(tier, pid):
+    """Two rows in one batch; both orders.  Row 1 symbolic, row 2 fixed per outcome class."""
+    out = []
+    reps = list(ROW2) if tier == "thorough" else ["input-balanced", "rule-based", "mcs-ok", "mcs-fail"]
+    row1 = []
+    if tier == "thorough":
+        for m in (0, 3, 4):
+            for jq in (-1, 0, 1):
+                row1.append({"m1": m, "jq": jq, "qq": 0})
+        row1.append({"m1": 4, "jq": 0, "qq": 1})
+        row1.append({"m1": 4, "jq": 0, "qq": -1})
+    else:
+        row1 = [{"m1": 0, "jq": 0, "qq": 0}, {"m1": 4, "jq": 0, "qq": 0}]
+    for rep in reps:
+        for order in (0, 1):
+            shape = ["j>>q", "w>>x"]
+            for r1 in row1:
+                fix = dict(ROW2[rep])
+                fix.update(r1)
+                name = "pipe2[%s|row2=%s,%s]" % ("j>>q,w>>x" if order == 0 else "w>>x,j>>q", rep, ",".join("%s=%d" % kv for kv in sorted(r1.items())))
+                out.append((name, {"shape": shape, "order": order, "E": ["C", "H"], "K": 2, "fix": fix}, "prop"))
+    return out
+
+
+def input_rows(PART):
+    shape = PART["shape"]
+    rows = [{"reaction": r} for r in shape]
+    if PART.get("order") == 1:
+        rows = rows[::-1]
+    return rows
